@@ -265,6 +265,7 @@ fn outcome_label_list(o: &Outcome) -> Vec<String> {
 	add(st.chans_onchain > 0, "channel-resolved-on-chain");
 	add(st.dust_forfeits > 0, "upstream-dust-forfeited");
 	add(o.durability_checks > 0, "durability-order-checked");
+	add(st.knowledge_lost > 0, "preimage-lost-in-crash-before-durable");
 	add(o.dist[1] > 0, "disturbance:async-update-in-flight-at-fulfil");
 	add(o.dist[2] > 0, "disturbance:disconnect");
 	add(o.dist[3] > 0, "disturbance:restart");
